@@ -80,6 +80,12 @@ theorem frame_info (s : St) (t : Name) : Frame s (step true s (.info t)) := by
       · next h => exact frame_erase h
       · exact Frame.refl s
 
+theorem frame_infoOne (s : St) (t : Name) : Frame s (infoOne s t) := by
+  simp only [infoOne]
+  split
+  · exact Frame.refl s
+  · exact frame_info s t
+
 theorem frame_listOne (s : St) (t : Name) : Frame s (listOne s t) := by
   simp only [listOne]
   split
@@ -101,7 +107,7 @@ theorem frame_exec (cmd : Cmd) (hro : cmd.readOnly = true) (s : St) : Frame s (c
     · exact frame_listSt s ts
   | info t hide =>
     cases hide
-    · exact frame_info s t
+    · exact frame_infoOne s t
     · exact Frame.refl s
   | clean dry forget ts =>
     simp only [Cmd.readOnly] at hro
